@@ -263,7 +263,7 @@ def rule_args_info_fresh(ctx, rep, rule_id="R-ARGS-INFO-FRESH"):
     ra = ctx.prog.func("codemodder.codemods.libcst_transformer.LibcstResultTransformer.replace_args")
     consumes = any(isinstance(n, ast.Delete) and "args_info" in unparse(n) for n in walk_no_nested(ra.node))
     n = 0
-    for fn in ctx.prog.functions.values():
+    for fn in ctx.prog.live_functions():
         r = ctx.resolver(fn)
         for c in walk_no_nested(fn.node):
             if isinstance(c, ast.Call) and last_attr(c.func) == "replace_args" and len(c.args) >= 2 and fn.qname != ra.qname:
